@@ -217,6 +217,11 @@ func (ex *Exec) goString(v Value) string {
 	case string:
 		return v
 	case SymStr:
+		if ex.fmtDepth > 0 {
+			// inside the formatter: a placeholder that fmtSplice turns back into the symbolic bytes
+			ex.fmtSyms = append(ex.fmtSyms, []*Term(v))
+			return fmt.Sprintf("\x00%d\x00", len(ex.fmtSyms)-1)
+		}
 		return fmt.Sprintf("<sym:%d>", len(v))
 	case *Term:
 		if v.IsConst() {
@@ -294,7 +299,43 @@ func (ex *Exec) errorText(fr *Frame, v Value) string {
 
 // sprintf is a small model of fmt.Sprintf over engine values. It returns the
 // text and the first argument consumed by %w (nil Iface when none).
-func (ex *Exec) sprintf(fr *Frame, format string, args []Value) (string, Value) {
+func (ex *Exec) sprintf(fr *Frame, format string, args []Value) (Value, Value) {
+	ex.fmtDepth++
+	s, w := ex.sprintf0(fr, format, args)
+	return ex.fmtSplice(s), w
+}
+
+// fmtSplice ends one formatting call: placeholders of symbolic strings are
+// replaced by their bytes (the result is then a symbolic string).
+func (ex *Exec) fmtSplice(s string) Value {
+	ex.fmtDepth--
+	defer func() {
+		if ex.fmtDepth == 0 {
+			ex.fmtSyms = nil
+		}
+	}()
+	if !strings.Contains(s, "\x00") {
+		return s
+	}
+	var out []*Term
+	for i := 0; i < len(s); i++ {
+		if s[i] == 0 {
+			j := strings.IndexByte(s[i+1:], 0)
+			if j >= 0 {
+				var k int
+				if _, err := fmt.Sscanf(s[i+1:i+1+j], "%d", &k); err == nil && k < len(ex.fmtSyms) {
+					out = append(out, ex.fmtSyms[k]...)
+					i += j + 1
+					continue
+				}
+			}
+		}
+		out = append(out, byteConst(s[i]))
+	}
+	return mkStr(out)
+}
+
+func (ex *Exec) sprintf0(fr *Frame, format string, args []Value) (string, Value) {
 	var sb strings.Builder
 	var wrapped Value
 	ai := 0
@@ -336,7 +377,11 @@ func (ex *Exec) sprintf(fr *Frame, format string, args []Value) (string, Value) 
 				sb.WriteString("<nil>")
 			}
 		case 'q':
-			sb.WriteString(fmt.Sprintf("%q", ex.errorText(fr, a)))
+			if t := ex.errorText(fr, a); strings.Contains(t, "\x00") {
+				sb.WriteString("\"" + t + "\"")
+			} else {
+				sb.WriteString(fmt.Sprintf("%q", t))
+			}
 		case 'x', 'X':
 			if itf, ok := a.(Iface); ok {
 				if t, ok := itf.v.(*Term); ok && t.IsConst() {
@@ -387,7 +432,12 @@ func registerLibIntrinsics(p *Program) {
 			var cell Value = Struct{msg, w}
 			return Iface{t: ex.ptrTo("fmt", "wrapError"), v: &cell}
 		}
-		return ex.newErrorString(msg)
+		if ms, ok := msg.(string); ok {
+			return ex.newErrorString(ms)
+		}
+		es := ex.newErrorString("").(Iface)
+		*(es.v.(*Value)) = Struct{msg}
+		return es
 	})
 	p.reg("fmt.Sprintf", func(ex *Exec, fr *Frame, args []Value) Value {
 		var va []Value
@@ -399,12 +449,13 @@ func registerLibIntrinsics(p *Program) {
 	})
 	p.reg("fmt.Sprint", func(ex *Exec, fr *Frame, args []Value) Value {
 		var sb strings.Builder
+		ex.fmtDepth++
 		if args[0] != nil {
 			for _, a := range args[0].([]Value) {
 				sb.WriteString(ex.errorText(fr, a))
 			}
 		}
-		return sb.String()
+		return ex.fmtSplice(sb.String())
 	})
 	p.reg("fmt.Sprintln", func(ex *Exec, fr *Frame, args []Value) Value { return "\n" })
 	noop := func(ex *Exec, fr *Frame, args []Value) Value { return zeroResults(fr.fn) }
